@@ -391,6 +391,8 @@ def gen_plan(rng, tier):
         plan["gc"] = "disabled"      # environment: no cyclic garbage collection during the run
     elif g < 0.2:
         plan["gc"] = "every_op"      # ... or a full collection after every operation
+    if rng.random() < 0.04:
+        plan["warnings"] = "error"   # environment: warnings escalated to errors (python -W error)
     if rng.random() < 0.03:
         # "a fresh process" also means another string-hash seed: one reference of this run
         # is computed in a cold interpreter started with this PYTHONHASHSEED
@@ -508,6 +510,10 @@ def _run(plan):
 
     if plan.get("gc") == "disabled":
         _gc.disable()
+    if plan.get("warnings") == "error":
+        import warnings
+
+        warnings.simplefilter("error")  # environment: python -W error (run and references alike)
     if plan.get("pyopt"):
         # the library as `python -O` compiles it (assert statements stripped)
         from ..util import reimport_labella
@@ -814,6 +820,10 @@ def _traced(fault, dry, real):
 
 def _reference(job):
     """Pristine child: the same spec, alone: construct, then the one export."""
+    if job.get("warnings") == "error":
+        import warnings
+
+        warnings.simplefilter("error")
     if job.get("pyopt"):
         from ..util import reimport_labella
 
@@ -874,11 +884,12 @@ def execute(plan):
     for ev in res["events"]:
         if ev["kind"] == "construct":
             key = h64([ev["spec"], ev["readings"], None])
-            job = {"spec": ev["spec"], "readings": ev["readings"], "op": None, "pyopt": plan.get("pyopt")}
+            job = {"spec": ev["spec"], "readings": ev["readings"], "op": None, "pyopt": plan.get("pyopt"),
+                   "warnings": plan.get("warnings")}
         else:
             key = h64([ev["spec"], ev["readings"], ev["op"][0], ev["op"][2:], ev.get("tweaks")])
             job = {"spec": ev["spec"], "readings": ev["readings"], "op": ev["op"], "tweaks": ev.get("tweaks"),
-                   "pyopt": plan.get("pyopt")}
+                   "pyopt": plan.get("pyopt"), "warnings": plan.get("warnings")}
         if ev["faulted"]:
             counters["exports_exempt_hit_by_fault"] = counters.get("exports_exempt_hit_by_fault", 0) + 1
             continue
@@ -911,7 +922,8 @@ def execute(plan):
                 violations.append({"property": "C10", "class": "construct_outcome_differs", "step": ev["step"],
                                    "detail": {"slot": ev["slot"], "alone": ref["construct"], "in_history": "ok"}})
             continue
-        if plan.get("hashseed_ref") and not counters.get("hashseed_references") and not plan.get("pyopt"):
+        if plan.get("hashseed_ref") and not counters.get("hashseed_references") and not plan.get("pyopt") \
+                and not plan.get("warnings"):
             from ..driver import cold_reference
 
             counters["hashseed_references"] = 1
